@@ -25,7 +25,19 @@ ASSUMPTIONS = c03.ASSUMPTIONS + ['reference scope resolver harness/ref_scope.py 
                                  'hand-resolved programs at the start of each run']
 
 
+_PRINTER_CACHE = {}
+
+
 def printers(kind, og, sf):
+    """printer objects are built once per worker and *reused* for every program, the usage the
+    library documents; a printer whose second use differs from its first is thereby exercised"""
+    key = (kind, og, sf)
+    if key not in _PRINTER_CACHE:
+        _PRINTER_CACHE[key] = _make_printers(kind, og, sf)
+    return _PRINTER_CACHE[key]
+
+
+def _make_printers(kind, og, sf):
     from calmjs.parse.unparsers.es5 import minify_printer, Unparser
     from calmjs.parse import rules
     from calmjs.parse.lexers.es5 import Lexer
@@ -223,8 +235,9 @@ def run_shard(shard):
         run_given(strat, lambda x: one(x[0]['text'], x[1], 'g1'), shard['n'], shard['hseed'], acc)
     elif shard['kind'] == 'wide':
         src = gen_scope.wide_scope(shard['size'])
-        for cfg in CONFIGS:
-            one(src, cfg, 'wide', sample=False)
+        for rnd in range(2):  # twice: the second round runs on printer objects that were used before
+            for cfg in CONFIGS:
+                one(src if rnd == 0 else src + ' var second_round;', cfg, 'wide', sample=False)
         acc.samples.append({'wide_scope_declarations': shard['size'], 'source_head': src[:200]})
     else:
         for i, src in enumerate(c03.load_corpus()):
